@@ -98,4 +98,156 @@ theorem smallAddFromL_spec {cap : Nat} {x : Limbs} (ox : LimbsOk x) {start : Nat
         exact (Nat.pow_lt_pow_iff_right (by unfold B64; norm_num : 1 < B64)).mp this
       rw [if_pos this]; exact ⟨_, rfl⟩
 
+/-! ## `large_add_from` -/
+
+theorem addGo_spec : ∀ (xs ys : Limbs) (c : Nat), LimbsOk xs → LimbsOk ys → c ≤ 1 → ys.length ≤ xs.length →
+    valL (addGo xs ys c).1 + B64 ^ ys.length * (addGo xs ys c).2 = valL (xs.take ys.length) + valL ys + c ∧
+    (addGo xs ys c).1.length = ys.length ∧ LimbsOk (addGo xs ys c).1 ∧ (addGo xs ys c).2 ≤ 1
+  | xs, [], c, _, _, hc, _ => by
+    cases xs <;> simp [addGo, valL, limbsOk_nil, hc]
+  | [], _ :: _, _, _, _, _, h => by simp at h
+  | xi :: xs, yi :: ys, c, ox, oy, hc, hl => by
+    obtain ⟨hxi, oxs⟩ := limbsOk_cons.mp ox
+    obtain ⟨hyi, oys⟩ := limbsOk_cons.mp oy
+    simp only [List.length_cons, Nat.add_le_add_iff_right] at hl
+    have hcar : (xi + yi + c) / B64 ≤ 1 := by
+      have : (xi + yi + c) / B64 < 2 := by
+        rw [Nat.div_lt_iff_lt_mul B64_pos]; omega
+      omega
+    obtain ⟨e1, e2, e3, e4⟩ := addGo_spec xs ys ((xi + yi + c) / B64) oxs oys hcar hl
+    simp only [addGo, valL, List.length_cons, List.take_succ_cons]
+    refine ⟨?_, by rw [e2], limbsOk_cons.mpr ⟨Nat.mod_lt _ B64_pos, e3⟩, e4⟩
+    rw [Nat.pow_succ]
+    have := carry_step B64 (xi + yi) c _ _ _ _ _ _ (Nat.div_add_mod (xi + yi + c) B64)
+      (show valL (addGo xs ys ((xi + yi + c) / B64)).1 + B64 ^ ys.length * (addGo xs ys ((xi + yi + c) / B64)).2 =
+        (valL (List.take ys.length xs) + valL ys) + (xi + yi + c) / B64 from e1)
+    have a : B64 * (valL (List.take ys.length xs) + valL ys) =
+        B64 * valL (List.take ys.length xs) + B64 * valL ys := by ring
+    omega
+
+/-- the core of `large_add_from` on a vector split as `A ++ Mi ++ Rr` with `|A| = start`, `|Mi| = |y|` -/
+theorem addMid_spec {cap : Nat} (A Mi Rr y : Limbs) (oA : LimbsOk A) (oM : LimbsOk Mi) (oR : LimbsOk Rr) (oy : LimbsOk y)
+    (hm : Mi.length = y.length) (hcap : (A ++ (Mi ++ Rr)).length ≤ cap) :
+    (∀ z, (if (addGo (Mi ++ Rr) y 0).2 ≠ 0
+          then smallAddFromL cap (A ++ (addGo (Mi ++ Rr) y 0).1 ++ Rr) 1 (y.length + A.length)
+          else some (A ++ (addGo (Mi ++ Rr) y 0).1 ++ Rr)) = some z →
+      LimbsOk z ∧ valL z = valL (A ++ (Mi ++ Rr)) + B64 ^ A.length * valL y ∧
+        (A ++ (Mi ++ Rr)).length ≤ z.length ∧ z.length ≤ cap) ∧
+    (valL (A ++ (Mi ++ Rr)) + B64 ^ A.length * valL y < B64 ^ cap →
+      ∃ z, (if (addGo (Mi ++ Rr) y 0).2 ≠ 0
+          then smallAddFromL cap (A ++ (addGo (Mi ++ Rr) y 0).1 ++ Rr) 1 (y.length + A.length)
+          else some (A ++ (addGo (Mi ++ Rr) y 0).1 ++ Rr)) = some z) := by
+  obtain ⟨e1, e2, e3, e4⟩ := addGo_spec (Mi ++ Rr) y 0 (limbsOk_append.mpr ⟨oM, oR⟩) oy (by omega)
+    (by rw [List.length_append]; omega)
+  have htk : List.take y.length (Mi ++ Rr) = Mi := by rw [← hm]; simp
+  rw [Nat.add_zero, htk] at e1
+  generalize addGo (Mi ++ Rr) y 0 = r at *
+  have ox' : LimbsOk (A ++ r.1 ++ Rr) := limbsOk_append.mpr ⟨limbsOk_append.mpr ⟨oA, e3⟩, oR⟩
+  have hl' : (A ++ r.1 ++ Rr).length = (A ++ (Mi ++ Rr)).length := by simp [e2, hm]
+  have hv' : valL (A ++ r.1 ++ Rr) + B64 ^ (y.length + A.length) * r.2 =
+      valL (A ++ (Mi ++ Rr)) + B64 ^ A.length * valL y := by
+    rw [List.append_assoc, valL_append' A, valL_append' r.1, valL_append' A, valL_append' Mi, e2, hm, Nat.pow_add]
+    generalize B64 ^ A.length = Ba at *
+    generalize B64 ^ y.length = By at *
+    have a1 : Ba * (valL r.1 + By * r.2) = Ba * (valL Mi + valL y) := by rw [e1]
+    have a2 : Ba * (valL r.1 + By * r.2) = Ba * valL r.1 + By * Ba * r.2 := by ring
+    have a3 : Ba * (valL Mi + valL y) = Ba * valL Mi + Ba * valL y := by ring
+    have a4 : Ba * (valL Mi + By * valL Rr) = Ba * valL Mi + Ba * By * valL Rr := by ring
+    have a5 : Ba * (valL r.1 + By * valL Rr) = Ba * valL r.1 + Ba * By * valL Rr := by ring
+    omega
+  by_cases h0 : r.2 = 0
+  · rw [if_neg (by simpa using h0)]
+    rw [h0, Nat.mul_zero, Nat.add_zero] at hv'
+    exact ⟨fun z hz => by injection hz with hz; subst hz; exact ⟨ox', hv', by rw [hl'], by rw [hl']; exact hcap⟩,
+      fun _ => ⟨_, rfl⟩⟩
+  · rw [if_pos h0]
+    have h1 : r.2 = 1 := by omega
+    rw [h1, Nat.mul_one] at hv'
+    obtain ⟨s1, s2⟩ := smallAddFromL_spec (cap := cap) ox' (start := y.length + A.length)
+      (by rw [hl']; simp [hm]; omega)
+    constructor
+    · intro z hz
+      obtain ⟨a, b, c, d⟩ := s1 z hz
+      refine ⟨a, by rw [b, hv'], by rw [← hl']; exact c, ?_⟩
+      rw [hl'] at d
+      omega
+    · intro hfit
+      exact s2 (by rw [hv']; exact hfit)
+
+/-- **`large_add_from(x, y, start)`**: `x += y·B^start`, for `x` a vector of limbs -/
+theorem largeAddFromL_spec {cap : Nat} {x y : Limbs} (ox : LimbsOk x) (oy : LimbsOk y) (hy : 0 < y.length)
+    (start : Nat) (hlen : x.length ≤ cap) :
+    (∀ z, largeAddFromL cap x y start = some z →
+      LimbsOk z ∧ valL z = valL x + B64 ^ start * valL y ∧ x.length ≤ z.length ∧ z.length ≤ cap) ∧
+    (y.length + start ≤ cap → valL x + B64 ^ start * valL y < B64 ^ cap → ∃ z, largeAddFromL cap x y start = some z) := by
+  -- the resize
+  have hres : ∀ x1, (if y.length > x.length - start then
+        (if y.length + start > cap then none else some (x ++ List.replicate (y.length + start - x.length) 0))
+      else some x) = some x1 →
+      LimbsOk x1 ∧ valL x1 = valL x ∧ y.length + start ≤ x1.length ∧ x.length ≤ x1.length ∧ x1.length ≤ cap := by
+    intro x1 h
+    split at h
+    · rename_i g1
+      split at h
+      · exact absurd h (by simp)
+      · rename_i g2
+        injection h with h; subst h
+        refine ⟨limbsOk_append.mpr ⟨ox, fun l hl => by rw [List.eq_of_mem_replicate hl]; exact B64_pos⟩, ?_, ?_, ?_, ?_⟩
+        · rw [valL_append']
+          have : valL (List.replicate (y.length + start - x.length) 0) = 0 := by
+            have := valL_zeros_append (y.length + start - x.length) []
+            simpa [valL] using this
+          rw [this]; simp
+        · simp; omega
+        · simp
+        · simp; omega
+    · injection h with h; subst h
+      exact ⟨ox, rfl, by omega, Nat.le_refl _, hlen⟩
+  -- the body, on the split vector
+  have hbody : ∀ x1, LimbsOk x1 → y.length + start ≤ x1.length → x1.length ≤ cap →
+      ∃ A Mi Rr, x1 = A ++ (Mi ++ Rr) ∧ A.length = start ∧ Mi.length = y.length ∧ LimbsOk A ∧ LimbsOk Mi ∧ LimbsOk Rr ∧
+        (let r := addGo (x1.drop start) y 0
+         let x' := x1.take start ++ r.1 ++ x1.drop (start + y.length)
+         if r.2 ≠ 0 then smallAddFromL cap x' 1 (y.length + start) else some x') =
+        (if (addGo (Mi ++ Rr) y 0).2 ≠ 0
+          then smallAddFromL cap (A ++ (addGo (Mi ++ Rr) y 0).1 ++ Rr) 1 (y.length + A.length)
+          else some (A ++ (addGo (Mi ++ Rr) y 0).1 ++ Rr)) := by
+    intro x1 o1 hl1 _
+    refine ⟨x1.take start, (x1.drop start).take y.length, (x1.drop start).drop y.length, ?_, by simp; omega,
+      by simp; omega, fun l hl => o1 l (List.mem_of_mem_take hl),
+      fun l hl => o1 l (List.mem_of_mem_drop (List.mem_of_mem_take hl)),
+      fun l hl => o1 l (List.mem_of_mem_drop (List.mem_of_mem_drop hl)), ?_⟩
+    · rw [List.take_append_drop, List.take_append_drop]
+    · have hA : (x1.take start).length = start := by simp; omega
+      rw [List.take_append_drop, List.drop_drop, hA]
+  unfold largeAddFromL
+  constructor
+  · intro z hz
+    cases hx1 : (if y.length > x.length - start then
+        (if y.length + start > cap then none else some (x ++ List.replicate (y.length + start - x.length) 0))
+      else some x) with
+    | none => rw [hx1] at hz; exact absurd hz (by simp)
+    | some x1 =>
+      rw [hx1, Option.bind_some] at hz
+      obtain ⟨o1, v1, l1, l2, l3⟩ := hres x1 hx1
+      obtain ⟨A, Mi, Rr, hx, hA, hM, oA, oM, oR, hb⟩ := hbody x1 o1 l1 l3
+      rw [hb] at hz
+      obtain ⟨a, b, c, d⟩ := (addMid_spec (cap := cap) A Mi Rr y oA oM oR oy hM (by rw [← hx]; exact l3)).1 z hz
+      rw [← hx] at b c
+      rw [hA] at b
+      exact ⟨a, by rw [b, v1], by omega, d⟩
+  · intro hyc hfit
+    have : ∃ x1, (if y.length > x.length - start then
+        (if y.length + start > cap then none else some (x ++ List.replicate (y.length + start - x.length) 0))
+      else some x) = some x1 := by
+      split
+      · rw [if_neg (by omega)]; exact ⟨_, rfl⟩
+      · exact ⟨_, rfl⟩
+    obtain ⟨x1, hx1⟩ := this
+    obtain ⟨o1, v1, l1, l2, l3⟩ := hres x1 hx1
+    obtain ⟨A, Mi, Rr, hx, hA, hM, oA, oM, oR, hb⟩ := hbody x1 o1 l1 l3
+    rw [hx1, Option.bind_some, hb]
+    apply (addMid_spec (cap := cap) A Mi Rr y oA oM oR oy hM (by rw [← hx]; exact l3)).2
+    rw [← hx, hA, v1]; exact hfit
+
 end LexVerif.Proof.Slow
